@@ -11,6 +11,8 @@ CONSTANTS
   CRProg <- B_CR
   Forms = {"fresh"}
   Colls = {}
+  LAs <- NoLA_B
+  DropOn = FALSE
   QuitOn = TRUE
   QuitDeferred = TRUE
   DefCap = 1
